@@ -68,6 +68,18 @@ CLAIMS = {
   text="Proof (partial): compile side — st.* instructions are emitted only by rules reachable solely through the `\"^st\"` alternative; every alternative of st_assign / st_modify_lead emits exactly one st.* instruction. VM side — each st.* case calls CallbackSt exactly once when a callback is installed and never otherwise, with the documented type string, fresh clones of name and value, and the operator/text of the instruction (ghost call counter and precall assertions in evaluate); `-` normalises through OpNegation with a nil check.",
   note="Not covered: which text a name token matches and how abutting edits are split (matchers are uninterpreted) — the seeded change of C18 (digits allowed inside st_name2r) is NOT detected. Order of callbacks follows from program order of the emitted instructions (not separately proved).",
   ref="DESIGN.md §3 C18", tech="contract-based: grammar obligations (reachability, typing) + VM ghost assertions discharged by SMT"),
+ "C14": dict(
+  text="Proof (partial): (a) every dice instruction of the VM (dice, fate, coc bonus/penalty, wod, dc) pushes the total returned by its Roll* call and records in the open detail span that same total as a fresh int value and the detail text returned by the same call (ghost capture at the call, assertions at the end of the instruction); with C04 (the total equals the sum of the dice the text lists) this is `each annotation's value is the total of the dice it lists`. (b) frame obligations: GetDetailText (host rewrite hooks aside) writes only its cache, reaches no host code other than the three detail hooks, draws no random number and returns the cache it stored, so requesting the text is idempotent and does not touch result, variables or generator.",
+  note="Not covered: the rendered text itself (makeDetailStr: grouping of nested spans, reverse splice into the source) — strings are uninterpreted and bytes.Buffer is not modelled, so neither `the text is the source with rolls replaced` nor the slice bounds inside makeDetailStr are obligations here; arithmetic meaning of the text after deleting annotations.",
+  ref="DESIGN.md §3 C14"),
+ "C17": dict(
+  text="Proof (partial): custom dice — PrepareCustomDice returns false exactly when no match is pending and leaves pendingCustomDice nil, CommitCustomDice clears it; tryMatchCustomDice returns a non-nil match iff ok (regex group slicing in bounds under the assumed FindStringSubmatchIndex contract); the VM case dice.custom calls the handler exactly once per evaluation of the instruction with the running context and a fresh copy of the groups, pushes a value equal to the handler's result and stores a fresh clone (never the handler's object) in the detail span. Store hook — StoreName calls the hook at most once and only when useHook; a hook that returns (nil, false) leaves the stored name and value exactly the caller's, an overwrite replaces the value, a hook that claims the store suppresses it.",
+  note="Not covered: load hooks (LoadNameWithDetail and solveLoadPostAndComputed are assumed contracts), stream parsers resetting correctly, equality of whole evaluations with and without registered extensions (relational), the grammar side `never-matching syntaxes change nothing` beyond the atomicity obligation of exprDice's first alternative. Host callbacks are assumed not to touch VM registers.",
+  ref="DESIGN.md §3 C17"),
+ "C19": dict(
+  text="Proof (partial): read() keeps 0 <= offset and offset + w <= len(data), advances by exactly the width of the previous rune, and changes line/column only by `col+1` or `line+1, col=0`; failAt moves maxFailPos only to a position it was given and never backwards, so the reported offset lies within the input; formatFriendlyError, fmtErr, getLineAtBytes, getPrevNonSpaceChar, findUnclosedBracketBytes are panic-free for 0 <= offset <= len(input) (slices, indices, loop termination of getPrevNonSpaceChar). Language: in fmtErr each configured-language branch appends only that language's header, position and message (syntactic obligation on the two switches).",
+  note="Known findings: (1) read() counts a newline when it steps onto it, so an error AT a newline is reported as next-line:0 (`^st\\n` -> 2:0) — the property-derived goal `rn == newline ==> line unchanged` fails; (2) parse errors raised by grammar actions are Chinese-only in every language setting. The caret/quoted-line text itself is not interpreted. The language selector is a package-level variable (C11 known finding).",
+  ref="DESIGN.md §3 C19"),
 }
 
 props = [json.loads(l)["id"] for l in open("/verif/properties.jsonl")]
